@@ -49,12 +49,14 @@ CLAIMS = {
    note=TB + "cross-acceptance therefore needs a SHAKE256 or pre-hash collision; the confusion family (all splits, all other modes, crafted mimicry) is executed on the crate on every run.",
    tech="Lean 4 proof of encoding injectivity over translated OIDs/domain bytes + exhaustive alternative-interpretation runs per signed string"),
  'C01': dict(cat='proof', ref='DESIGN 5 C01',
-   text="Partial proof + differential execution. Proved in Lean for all inputs and oracles: a signature is emitted only after the four rejection checks of Algorithm 7 passed (so ||z|| < gamma1-beta, the verifier's own "
-        "threshold expression, and weight(h) <= omega hold for every emitted signature), signer and verifier hash the same formatted message; UseHint(MakeHint(z, r), r) = HighBits(r + z) for every r and |z| <= gamma2, for the FIPS functions and for the crate's kernels (use_hint_recovers_high_bits); "
-        "HighBits(r + s) = HighBits(r) whenever |LowBits(r)| < gamma2 - b and |s| <= b; the per-coefficient core of completeness (signer_hint_coefficient: under the tests Algorithm 7 applies, UseHint(MakeHint(-ct0, w-cs2+ct0), w-cs2+ct0) = HighBits(w)); ||c*s|| <= tau*eta for every challenge sample_in_ball can return (negacyclic product norm bound); and (C09, C11) the three key provenances are the same structs, (C18) the pipelines compute ring products, (C02) verification is Algorithm 8, "
-        "(C08) encodings round-trip. Not proved: the composition of these through Algorithm 7's rejection loop into w1' = w1; decided on every run by verify(sign(..)) = true on the crate over all modes, sets and 2 x 4 key-provenance pairs, plus model agreement on a sample.",
-   note=TB + "completeness for every input additionally rests on C02, C03, C09, C11, C18 (each claimed separately).",
-   tech="Lean 4 proof of rejection-loop exit conditions + round-trip execution over all (mode, set, sk provenance, pk provenance) combinations"),
+   text="Lean proof (one named hypothesis left) + differential execution. Proved for all inputs and oracles, no bound on sizes: Algorithm 8 returns true on what Algorithm 7 emits (signature_verifies_spec_partial), where Algorithms 7 / 8 are the exact specifications "
+        "signSpec / verifySpec that C03 / C02 prove equal to the crate's sign_internal / verify_internal for every input, and the key is any (rho, K, tr, s1, s2) with t = A s1 + s2, (t1, t0) = Power2Round(t) (what C04 proves key generation produces). The proof: "
+        "the two transforms are mutually inverse modulo q (invS_nttS, nttS_invS over the generated zeta table); the verifier's ring identity NTT^-1(A_hat.NTT(z) - NTT(c).NTT(t1 2^d)) = A y - c s2 + c t0 row by row (verifier_ring_identity, by evaluation at the 256 roots); "
+        "UseHint(MakeHint(z, r), r) = HighBits(r + z) and stability of HighBits under shifts below the LowBits margin (hint duality); ||c s|| <= tau eta for every challenge sample_in_ball returns; so an accepted attempt (all four tests of Algorithm 7) yields the same w1, the same commitment hash and a passing norm test in Algorithm 8 "
+        "(accepted_attempt_verifies), lifted through the rejection loop and the encoder. The one hypothesis not discharged in Lean: the emitted signature bytes decode back to the (c~, z, h) that were encoded (sigDecode after sigEncode; the opposite direction is C08's theorem). Also proved: a signature is emitted only after the four rejection checks passed, "
+        "signer and verifier hash the same formatted message, and the kernel-level hint facts for the crate's own make_hint / use_hint. Decided on every run as well by verify(sign(..)) = true on the crate over all modes, sets and 2 x 4 key-provenance pairs, plus model agreement on a sample.",
+   note=TB + "end-to-end completeness on the crate's functions composes this theorem with C02, C03, C04, C08, C09, C11 (each claimed separately) and with the undischarged decode-after-encode hypothesis.",
+   tech="Lean 4 proof that Algorithm 8 accepts Algorithm 7's output (ring identity, hint duality, norm bounds, rejection loop; one codec hypothesis) + round-trip execution over all (mode, set, sk provenance, pk provenance) combinations"),
  'C02': dict(cat='proof', ref='DESIGN 5 C02',
    text="Lean theorem for every input (both build modes): for each parameter set, every public-key byte string, message, context, pre-hash and every byte string of signature length, verify_internal on the struct expand_public built returns exactly what "
         "Algorithm 8 returns when written with exact arithmetic modulo q (verification_is_algorithm_8: sigDecode; SampleInBall; ExpandA; w' = NTT^-1(A_hat.NTT(z) - NTT(c).NTT(t1*2^d)) by exact butterflies; UseHint; w1Encode; "
